@@ -18,6 +18,7 @@
 EXTENDS Retry, Json, IOUtils
 
 Traces == JsonDeserialize(IOEnv.TRACE_FILE)
+Nothing == {}            \* the trace spec does not use Cfgs / KnownDefects of the Model
 
 VARIABLES tid, l
 tvars == <<cfg, m, trail, evs, ob, tid, l>>
